@@ -229,7 +229,23 @@ func runC08(c *core.Case) {
 			list = append(list, far)
 		}
 	}
+	if !forced && (r.P(0.0003) || (c.Tier == "thorough" && r.P(0.0003))) { // very long list, one layer
+		n := veryLongLen(r)
+		z := clampI(id.H, 12, 35)
+		list = list[:0]
+		for len(list) < n {
+			list = append(list, ref.ID{H: z, X: r.I64n(pow2(z)), Y: r.I64n(pow2(z)), V: id.V, F: r.Range(-1000, 1000)})
+		}
+		list[n-2] = ref.Shift(list[0], 1, 0, 0) // overlapping neighbourhoods far apart in the list
+		hl, vl = 1, 0
+		c.Tag("very-long-list")
+	}
 	in := ref.Exts(list)
+	if !forced && r.P(0.02) {
+		k := r.Intn(len(in))
+		in[k] = respell(r, in[k])
+		c.Tag("respelled-numerals")
+	}
 	inCopy := copyStrings(in)
 	keyStrings(c, in)
 	c.KI(hl, vl)
